@@ -114,7 +114,7 @@ theorem define_class_case (cs : Classes) (k1 k2 : Name) (hk : fold k1 = fold k2)
 theorem new_select_case (w : World) (k1 k2 : Name) (hk : fold k1 = fold k2) (args : List Val)
     (kwargs filt : List (Name × Val)) :
     newInst w k1 args kwargs = newInst w k2 args kwargs ∧ selectMany w k1 filt = selectMany w k2 filt := by
-  unfold newInst selectMany findMetaclass
+  unfold newInst newInstWith selectMany findMetaclass
   rw [hk]
   exact ⟨rfl, rfl⟩
 
